@@ -230,6 +230,25 @@ def rules(ctx):
     ctx.rule('R12.3', "acceptance condition dE <= 0 || (T > 0 && u < exp(-dE/T)); kernels agree", floor=5)
     ctx.rule('R12.4', "quso: flip paired with cached-dE update, dE read from the cache; puso: dE recomputed in the step", floor=4)
     ctx.rule('R12.5', "visited index is in_order ? j : rand_int(rng, len_state)", floor=2)
+    # the generator wrappers: uniform on [0, stop) is the bounded draw of the generator itself (rescaling a double by
+    # rounding is not uniform), uniform on [0, 1) is the 32-bit draw scaled by 2**-32
+    C_ = ctx.cprog
+    for fname_, want_ in (('rand_int', r'pcg32_boundedrand_r\(rng,stop\)'), ('rand_double', r'ldexp\(pcg32_random_r\(rng\),-32\)')):
+        try:
+            f_ = C_.func(fname_)
+        except Exception:
+            continue
+        rv = [unparen(S(f_.expand(r_['value']))).replace(' ', '') for r_ in f_.returns if r_['value'] is not None]
+        # a draw given a name first (`bits = pcg32_random_r(rng); return ldexp(bits, -32)`): one declaration, one use
+        for nm_, (ty_, init_, ln_) in f_.locals.items():
+            if init_ is not None and len(rv) == 1 and len(re.findall(r'\b%s\b' % re.escape(nm_), rv[0])) == 1 \
+                    and sum(1 for a_ in f_.assigns if a_['lhs'] == nm_) == 1:
+                rv = [re.sub(r'\b%s\b' % re.escape(nm_), unparen(S(init_)).replace(' ', ''), rv[0])]
+        okg = len(rv) == 1 and re.fullmatch(want_, rv[0]) is not None and not f_.fors
+        ctx.inst('R12.5', (f_.unit, fname_), 'return of %s' % fname_, okg,
+                 "%s returns the generator's own %s draw" % (fname_, 'bounded' if fname_ == 'rand_int' else 'scaled 32-bit') if okg else
+                 "%s returns `%s`, not the generator's own draw (%s): the proposal / acceptance distribution is no longer uniform"
+                 % (fname_, rv[:1], want_.replace('\\', '')))
     ctx.rule('R12.6', "user-specified temperatures are never altered: only an automatically computed (0, 0) range is "
                       "replaced, an explicit schedule is used as given", floor=2)
 
